@@ -119,6 +119,23 @@ func (h *H) genRec(g *Gen, i int, number uint64) *Rec {
 		cls := g.Value(tClsIface, cfgOf()).Interface().(core.ClassDefinition)
 		rec.Classes[*g.uniqueFelt()] = &core.DeclaredClassDefinition{At: g.u64(), Class: cls}
 	}
+	// CASM hash metadata in its three shapes: declared with V2, declared with V1, V1 then migrated
+	rec.Casm = map[felt.SierraClassHash]core.ClassCasmHashMetadata{}
+	for k := g.R.Intn(4); k > 0; k-- {
+		v1, v2 := felt.CasmClassHash(g.felt()), felt.CasmClassHash(g.felt())
+		at := g.u64() >> 1
+		var md core.ClassCasmHashMetadata
+		switch g.R.Intn(3) {
+		case 0:
+			md = core.NewCasmHashMetadataDeclaredV2(at, &v2)
+		case 1:
+			md = core.NewCasmHashMetadataDeclaredV1(at, &v1, &v2)
+		default:
+			md = core.NewCasmHashMetadataDeclaredV1(at, &v1, &v2)
+			_ = md.Migrate(at + 1 + uint64(g.R.Intn(1000)))
+		}
+		rec.Casm[felt.SierraClassHash(*g.uniqueFelt())] = md
+	}
 	return rec
 }
 
@@ -162,7 +179,7 @@ func (h *H) phaseRecords() {
 
 func (h *H) recordGroup(gi int, kind string, perGroup int) {
 	res := h.res
-	g := &Gen{R: h.rng("records", gi)}
+	g := &Gen{R: h.rng("records", gi), rawLimbs: true}
 	be, err := h.openBackend(kind, fmt.Sprintf("rec%d", gi))
 	if err != nil {
 		res.Note("open %s: %v", kind, err)
@@ -188,6 +205,24 @@ func (h *H) recordGroup(gi int, kind string, perGroup int) {
 		}
 		heights[n] = true
 		recs = append(recs, h.genRec(g, gi*perGroup+i, n))
+	}
+	if gi == 0 {
+		// one big block (more than 256 transactions: indexes and counts beyond one byte)
+		big := h.genRec(g, 1, 300)
+		big.Txs, big.Rcs = nil, nil
+		for j := 0; j < 300; j++ {
+			c := Cfg(1, false) // minimal shapes
+			if j%50 == 0 {
+				c = Cfg(5+j, false)
+			}
+			tx := g.Tx(c)
+			big.Txs = append(big.Txs, tx)
+			big.Rcs = append(big.Rcs, g.Receipt(tx, c))
+		}
+		if !heights[300] {
+			heights[300] = true
+			recs = append(recs, big)
+		}
 	}
 	// write all, then read all: a later write must not disturb an earlier record
 	for _, rec := range recs {
@@ -394,7 +429,7 @@ func (h *H) phaseUTF8() {
 		return
 	}
 	res := h.res
-	g := &Gen{R: h.rng("utf8", 0)}
+	g := &Gen{R: h.rng("utf8", 0), rawLimbs: true}
 	tx := g.Tx(Cfg(1, false))
 	rc := g.Receipt(tx, Cfg(1, false))
 	rc.Reverted = true
